@@ -241,6 +241,20 @@ Definition user_writers (m : wmesh) : list pw :=
   filter (fun w => negb (is_default_writer w))
          (flat_map (unspec_of_dim m (filter (qualifies m) default_writers)) [4; 3; 2; 1]%nat).
 Definition user_names (m : wmesh) : list string := flat_map pw_names (user_writers m).
+(* The reader turns properties into a vector attribute only when a whole group of its table is in the file.  A user
+   name may be a member of such a group ("t", "alpha", "px", "scale_0" ...) as long as the user names do not COMPLETE
+   it: either no user name is a member, or some member is in the file under no name at all (for the colour groups, whose
+   alpha is optional, the same for the first three members). *)
+Definition default_prop_names (m : wmesh) : list string := flat_map pw_names (filter (qualifies m) default_writers).
+Definition absentb (l : list string) (n : string) : bool := negb (existsb (seqb n) l).
+Definition grp_openb (ms all user : list string) : bool := forallb (absentb ms) user || existsb (absentb all) ms.
+Definition group_openb (g : group) (all user : list string) : bool :=
+  match g_members g with
+  | [m0] => forallb (absentb [m0]) user
+  | ms => grp_openb ms all user && (negb (g_ignorable_w g) || grp_openb (firstn 3 ms) all user)
+  end.
+Definition no_group_completedb (m : wmesh) : bool :=
+  forallb (fun g => group_openb g (default_prop_names m ++ user_names m) (user_names m)) default_groups.
 Definition row_okb (d : nat) (r : list N) : bool := Nat.eqb (List.length r) d && forallb word32b r.
 Definition unit_okb (w : N) : bool := match q255 w with Ok _ => true | Err _ => false end.
 Fixpoint nodupb (l : list string) : bool :=
@@ -254,7 +268,8 @@ Definition wf_mesh (m : wmesh) : bool :=
   forallb (wf_attr (w_n m)) (w_attrs m)
   && keys_nodupb (w_attrs m)                                                   (* one attribute per (dimension, name) *)
   && (match w_attrs m with [] => Nat.eqb (w_n m) 0 | _ => negb (Nat.eqb (w_n m) 0) end)
-  && nodupb (user_names m) && forallb (fun n => negb (existsb (seqb n) reserved_names)) (user_names m)
+  && nodupb (default_prop_names m ++ user_names m)                              (* no property name twice *)
+  && no_group_completedb m                                                      (* user names complete no reader group *)
   && negb (existsb (seqb "Opacity") (user_names m))      (* a scalar property `Opacity` would collide with the attribute *)
   && match w_topo m with
      | TPoint => list_eqb Nat.eqb (w_idx m) (seq 0 (w_n m))                   (* NewPointCloud: identity indices *)
